@@ -1,0 +1,40 @@
+//! Verification hook (only compiled with `--cfg mla_verif`).
+//!
+//! Lets a verification build choose smaller values for the size constants of
+//! the layers, through `MLA_VERIF_*` environment variables read at *compile*
+//! time. When a variable is not set, the production value is used.
+
+const fn parse(value: Option<&str>, default: u64) -> u64 {
+    match value {
+        None => default,
+        Some(s) => {
+            let bytes = s.as_bytes();
+            assert!(!bytes.is_empty(), "empty MLA_VERIF_* value");
+            let mut i = 0;
+            let mut acc: u64 = 0;
+            while i < bytes.len() {
+                let c = bytes[i];
+                assert!(c >= b'0' && c <= b'9', "MLA_VERIF_* value must be decimal");
+                acc = acc * 10 + (c - b'0') as u64;
+                i += 1;
+            }
+            acc
+        }
+    }
+}
+
+/// `layers::encrypt::CIPHER_BUF_SIZE`
+pub const CIPHER_BUF_SIZE: u64 = parse(option_env!("MLA_VERIF_CIPHER_BUF_SIZE"), 4096);
+/// `layers::encrypt::CHUNK_SIZE`
+pub const CHUNK_SIZE: u64 = parse(option_env!("MLA_VERIF_CHUNK_SIZE"), 128 * 1024);
+/// `layers::compress::UNCOMPRESSED_DATA_SIZE`
+#[allow(clippy::cast_possible_truncation)]
+pub const UNCOMPRESSED_DATA_SIZE: u32 =
+    parse(option_env!("MLA_VERIF_BLOCK_SIZE"), 4 * 1024 * 1024) as u32;
+/// `layers::compress::FAIL_SAFE_BUFFER_SIZE`
+#[allow(clippy::cast_possible_truncation)]
+pub const FAIL_SAFE_BUFFER_SIZE: usize = parse(option_env!("MLA_VERIF_FS_BUF_SIZE"), 4096) as usize;
+/// `CACHE_SIZE` of the repair loop
+#[allow(clippy::cast_possible_truncation)]
+pub const REPAIR_CACHE_SIZE: usize =
+    parse(option_env!("MLA_VERIF_REPAIR_CACHE_SIZE"), 8 * 1024 * 1024) as usize;
